@@ -185,8 +185,8 @@ func init() {
 		Level: "model_checking",
 		Rule: "four thread sets on the real server with the SyncWAL loop and the WAL timer (<=1 fire): (1) two writers appending to one variable interval that already holds data + a reader issuing two all-time queries; (2) two writers overwriting one fixed interval + a reader; " +
 			"(3) one writer (variable then fixed write) + two readers of the same and of another bucket; (4) a writer adding a new year file to the bucket being read; ALL interleavings with <=2 deviations (thorough: 3; thread set 3: 1, thorough 2) with scheduling points at every channel/lock/device operation (so a reader can run between the data write and the index write). " +
-			"oracle per execution: no panic, no deadlock, no query error, every row complete (both columns equal) and from an issued write, no variable row more often than written. non-trivial = schedules with >=1 deviation",
-		Assume: []string{"data-race freedom in the memory-model sense cannot be decided by a cooperative scheduler (its hand-offs order all accesses); the EFFECTS of all interleavings within the bound are decided exhaustively, and unsynchronised accesses are looked for by the auxiliary free-running -race pass (coverage.auxiliary_race_pass), which samples schedules and is not part of the exhaustive verdict", "UTC"},
+			"oracle per execution: no panic, no deadlock, no query error, every row complete (both columns equal) and from an issued write, no variable row more often than written, and no pair of conflicting accesses that is unordered by the happens-before relation of the code's own synchronisation (data race). non-trivial = schedules with >=1 deviation",
+		Assume: []string{"data races: happens-before detection (rt/vrt/hb.go) over reads/writes of struct fields and package-level variables of the instrumented packages on every explored schedule; accesses to slice/map elements and inside third-party packages are not tracked", "UTC"},
 		QuickMax: 8 * time.Minute, ThorMax: 45 * time.Minute,
 		Race: &mc.RaceSpec{Scenarios: []string{"mixed", "same-bucket", "new-buckets"}, Quick: 6, Thorough: 60},
 	}, schedEnum(c18Scens, func(c *mc.Ctx, si int) int {
